@@ -10,6 +10,7 @@ import (
 )
 
 type Summary struct {
+	DistinctOK int `json:"distinct_ok_ops"` // distinct accepted operations (by their full resolved text)
 	Histories  int                       `json:"histories"`
 	Steps      int                       `json:"steps"`
 	OpCounts   map[string]map[string]int `json:"op_counts"`
@@ -26,6 +27,8 @@ type VRec struct {
 	Step   int    `json:"step"`
 	Detail string `json:"detail"`
 }
+
+var distinctOK map[string]bool
 
 func main() {
 	mode := flag.String("mode", "explore", "explore | determinism | corpus | replay | pureprice | purekeys")
@@ -64,6 +67,13 @@ func main() {
 				sum.OpCounts[o.Kind] = map[string]int{}
 			}
 			sum.OpCounts[o.Kind][r.results[i]]++
+			if r.results[i] == "ok" && o.Kind != "query" && o.Kind != "export" {
+				if distinctOK == nil {
+					distinctOK = map[string]bool{}
+				}
+				distinctOK[o.line()] = true
+				sum.DistinctOK = len(distinctOK)
+			}
 		}
 		for k, v := range r.mon.evals {
 			sum.MonEvals[k] += v
